@@ -30,17 +30,23 @@ Fixpoint model_adds (idx : index) (ops : list (bytes * stage)) : list bool * ind
   match ops with
   | [] => ([], idx)
   | (p, s) :: r =>
-    match add_stage idx p s with
+    match (if validate p s then add_stage idx p s else None) with
     | Some idx' => let '(l, i) := model_adds idx' r in (true :: l, i)
     | None => let '(l, i) := model_adds idx r in (false :: l, i)
     end
+  end.
+
+Fixpoint pairwise_nonoverlap (l : list artifact) : bool :=
+  match l with
+  | [] => true
+  | a :: r => forallb (fun b => negb (overlap a b)) r && pairwise_nonoverlap r
   end.
 
 Fixpoint ref_adds (acc : list artifact) (ops : list (bytes * stage)) (seen : list bytes) : list bool :=
   match ops with
   | [] => []
   | (p, s) :: r =>
-    let ok := negb (mem p seen) &&
+    let ok := negb (mem p seen) && pairwise_nonoverlap (s_outputs s) &&
               forallb (fun o => forallb (fun o' => negb (overlap o o')) acc) (s_outputs s) in
     ok :: ref_adds (if ok then s_outputs s ++ acc else acc) r (if ok then p :: seen else seen)
   end.
@@ -64,12 +70,6 @@ Definition run_own (cs : list own_case) : list (N * N) :=
 
 (* Validate on multi-artifact stages *)
 Record val_case := mkVal { vc_id : N; vc_path : bytes; vc_stage : stage; vc_ok : bool }.
-
-Fixpoint pairwise_nonoverlap (l : list artifact) : bool :=
-  match l with
-  | [] => true
-  | a :: r => forallb (fun b => negb (overlap a b)) r && pairwise_nonoverlap r
-  end.
 
 Definition ref_validate (p : bytes) (s : stage) : bool :=
   negb (contains_dotdot (s_wd s)) && negb (is_abs (s_wd s)) &&
